@@ -214,19 +214,28 @@ class MolecularContainer:
         opt: Tuple[Optional[float], float] = (None, 1e6)
         for point in profile:
             opt = min(opt, point, key=lambda v: v[1])
-        # find values within 80 % of optimum
-        range_80pct: Tuple[Optional[float], Optional[float]] = (None, None)
+        def interval_around_optimum(accept):
+            """pH range of the consecutive grid points around the optimum whose
+            energy is accepted.  (The accepted points of a profile with two
+            wells are not contiguous: their smallest and largest pH would span
+            the hump between the wells.)"""
+            if opt[0] is None or not accept(opt[1]):
+                return (None, None)
+            low = high = profile.index(opt)
+            while low > 0 and accept(profile[low-1][1]):
+                low -= 1
+            while high < len(profile)-1 and accept(profile[high+1][1]):
+                high += 1
+            ends = (profile[low][0], profile[high][0])
+            return (min(ends), max(ends))
+
+        # find values within 80 % of optimum:
         # at most 20 % of |optimum| above the optimum (0.8*opt for opt < 0,
         # 1.2*opt for opt > 0: 0.8*opt would lie below the minimum)
         level_80pct = opt[1] + 0.2*abs(opt[1])
-        values_within_80pct = [p[0] for p in profile if p[1] <= level_80pct]
-        if len(values_within_80pct) > 0:
-            range_80pct = (min(values_within_80pct), max(values_within_80pct))
+        range_80pct = interval_around_optimum(lambda dg: dg <= level_80pct)
         # find stability range
-        stability_range: Tuple[Optional[float], Optional[float]] = (None, None)
-        stable_values = [p[0] for p in profile if p[1] < 0.0]
-        if len(stable_values) > 0:
-            stability_range = (min(stable_values), max(stable_values))
+        stability_range = interval_around_optimum(lambda dg: dg < 0.0)
         return profile, opt, range_80pct, stability_range
 
     def get_charge_profile(self, conformation: str = 'AVR', grid=(0., 14., .1)):
